@@ -120,6 +120,26 @@ PROPS["C15"] = dict(
     ],
 )
 
+PROPS["C04"] = dict(
+    functions=SEL_FUNCS,
+    bounds=SEL_BOUNDS + "; N = 2 (quick), 3 (thorough; classic also 4)",
+    stubs=["selection::enhanced::in_flight_cap_exceeded and cc_soft_cap_multiplier -> deterministic abstractions over their documented range "
+           "(quick-tier enhanced harnesses)"],
+    assumptions=["clock values <= 2^48 ms", "enhanced harnesses: 50 ms quality cache fresh"],
+    outside="ONLY THE SCHEDULER LAYER IS DECIDED (normal scheduling and score hysteresis: whatever select_connection_idx returns has completed "
+            "registration since its last reset, is not timed out and is not stall-gated after the call). The keyframe-window / SRT-retransmit "
+            "priority override in the shell's handle_srt_packet (select_best_quality_idx applied at the call site), pre-registration forwarding "
+            "and the duplicate probes are NOT decided: the composition harness over the real handle_srt_packet (hk/shell/src/c04.rs) compiles "
+            "but exhausts 14 GB in CBMC, and checking select_best_quality_idx alone would raise an alarm on a tree that filters at the call "
+            "site. Fault histories are covered inductively through the arbitrary pre-state.",
+    harnesses=[
+        H("c03::c03_classic_n2", "core", desc="classic: selected uplink is registered, not timed out, not stall-gated", bounds="N=2"),
+        H("c03::c03_enhanced_n2", "core", desc="enhanced (incl. hysteresis hold): same", bounds="N=2"),
+        H("c03::c03_classic_n3", "core", tier="thorough", bounds="N=3", timeout=3000),
+        H("c03::c03_enhanced_n3", "core", tier="thorough", bounds="N=3", timeout=3000),
+    ],
+)
+
 PROPS["C08"] = dict(
     functions=["SrtlaConnection::is_timed_out", "ReconnectionState::{should_attempt_reconnect, backoff_delay, record_attempt, mark_success}",
                "SrtlaConnection::{reset_for_reconnect, mark_for_recovery, clear_pre_registration_state, reset_core_state}",
@@ -152,9 +172,30 @@ PROPS["C10"] = dict(
         H("c06::c06_conn_events_step", "core", desc="global +1 iff connected and ever heard; -100 per charged NAK; bounds"),
         H("c06::c06_nak_step", "core", desc="-100 floored at 1000"),
         H("c10::c10_get_score_formula", "core", desc="get_score == window / (in-flight + queued + 1), -1 when disconnected", timeout=1500),
-        H("c02s::c10_window_evolution_two_acks", "shell", desc="two-ACK datagram in classic mode == reference rules per packet, in order", bounds="2 links, 2 ACK numbers", timeout=1500),
+        H("c02s::c10_window_evolution_two_acks", "shell", tier="thorough", desc="two-ACK datagram in classic mode == reference rules per packet, in order (real process_connection_events; > 25 min, may exceed the budget)", bounds="2 links, 2 ACK numbers", timeout=6000, env={"VERIF_SV_CAP": "4"}),
         H("c10::c10_classic_reference_n3", "core", tier="thorough", bounds="N=3", timeout=3000),
         H("c10::c10_classic_reference_n4", "core", tier="thorough", bounds="N=4", timeout=3000),
+    ],
+)
+
+PROPS["C11"] = dict(
+    functions=["selection::enhanced::select_connection (through select_connection_idx)", "selection::calculate_quality_multiplier "
+               "(-> quality::calculate_quality_multiplier_uncached, calculate_rtt_bonus)", "selection::enhanced::in_flight_cap_packets",
+               "SrtlaConnection::{get_cached_quality_multiplier, phase_weight, is_timed_out, is_schedulable}", "apply_stall_gate"],
+    bounds="ranges: every link state and clock (quality multiplier), every u64 target and f64 RTT incl. NaN/inf (BDP cap). Selection oracle: 2 links "
+           "(thorough 3), every gate/phase/eligibility field symbolic, any config, any previous index; score factors drawn from a grid - quality in "
+           "{0.35, 0.5, 1.0, 1.1, 1.133}, soft cap in {0.1, 0.5, 1.0}, capacity score in {0, 10, 11, 20, 22, 1000} (contains the range extremes, "
+           "ties and pairs exactly 10 % apart)",
+    stubs=["f64::exp -> contract (x <= 0 -> (0, 1])", "SrtlaConnection::get_score, enhanced::in_flight_cap_exceeded, enhanced::cc_soft_cap_multiplier "
+           "-> deterministic abstractions over otherwise unused symbolic fields (their real formulas / ranges are decided separately)"],
+    assumptions=["clock values <= 2^48 ms", "quality cache fresh in the selection harness (the cached multiplier is what the selector multiplies by)"],
+    outside="fully symbolic f64 score factors in the selection oracle (SAT did not finish on two symbolic product pipelines); the soft-cap "
+            "factor's own range [0.1, 1] (cc_soft_cap_multiplier is private; it is a clamp(0.1, 1.0) by inspection, not decided); N > 3",
+    harnesses=[
+        H("c11::c11_quality_multiplier_range", "core", desc="quality multiplier finite and within [0.35, 1.1 x 1.03] for every state/clock"),
+        H("c11::c11_in_flight_cap_range", "core", desc="BDP in-flight cap >= 1, defined for every input"),
+        H("c11b::c11_enhanced_oracle_n2", "core", desc="enhanced choice == recomposed oracle: gate precedence, 0.8 warming, 0.02 penalty, 1.10 hysteresis, capped link never chosen while an unconstrained one exists, re-run stability", bounds="N=2, grid", timeout=2400),
+        H("c11b::c11_enhanced_oracle_n3", "core", tier="thorough", desc="same, 3 links", bounds="N=3, grid", timeout=6000),
     ],
 )
 
@@ -215,9 +256,9 @@ PROPS["C02"] = dict(
         H("c02::c02_cumulative_ack_step_mid", "core", desc="cumulative ACK == set model for any mark/ack spacing (fast and slow path)", env={"VERIF_MAP_CAP": "4"}, timeout=1500),
         H("c02::c02_nak_and_srtla_ack_step_mid", "core", desc="NAK / SRTLA ACK retire exactly the held number; otherwise untouched", env={"VERIF_MAP_CAP": "4"}),
         H("c02::c02_reset_step_mid", "core", desc="resets retire everything", env={"VERIF_MAP_CAP": "4"}),
-        H("c02s::c02_srtla_ack_dispatch_idx0", "shell", desc="SRTLA ACK over 3 links: arrival link first, else exactly one other holder", bounds="3 links, arrival link 0", timeout=1500),
-        H("c02s::c02_srtla_ack_dispatch_idx1", "shell", desc="same, arrival link 1", bounds="3 links, arrival link 1", timeout=1500),
-        H("c02s::c02_cumulative_ack_every_link", "shell", desc="cumulative ACK retires on every link", bounds="2 links", timeout=1500),
+        H("c02s::c02_srtla_ack_dispatch_idx0", "shell", tier="thorough", desc="SRTLA ACK over 3 links: arrival link first, else exactly one other holder (real process_connection_events; > 25 min, may exceed the budget)", bounds="3 links, arrival link 0", timeout=6000, env={"VERIF_SV_CAP": "4"}),
+        H("c02s::c02_srtla_ack_dispatch_idx1", "shell", tier="thorough", desc="same, arrival link 1", bounds="3 links, arrival link 1", timeout=6000, env={"VERIF_SV_CAP": "4"}),
+        H("c02s::c02_cumulative_ack_every_link", "shell", tier="thorough", desc="cumulative ACK retires on every link", bounds="2 links", timeout=6000, env={"VERIF_SV_CAP": "4"}),
         H("c02::c02_ack_order_independent_mid", "core", tier="thorough", desc="ACK a;b == ACK max(a,b)", env={"VERIF_MAP_CAP": "4"}, timeout=3000),
         H("c02::c02_history_4_mid", "core", tier="thorough", desc="4-event history vs set model", env={"VERIF_MAP_CAP": "4"}, timeout=3000),
     ],
